@@ -3,9 +3,9 @@ package main
 func init() {
 	register(&Property{
 		ID:          "C05",
-		Explanation: "RA over the stable compiler's scheduler and the shared symbol table: executor.results and result.blockedOn are touched only under their mutex; executor/result fields read without locks are never assigned after construction; descriptorProtoIsCustom is written only inside its sync.Once. RB: result.res/err are written only in fail/complete (write; close(ready)) and every other read is dominated by a receive from the same result's ready channel. RC5: Compile returns descriptors indexed by request position only after the handler verdict. RI/RJ: no map-order-, clock- or random-dependent value is produced in functions reachable from Compiler.Compile except through the listed order-insensitive idioms. RA4: insert-if-absent writes of the symbol table happen in the critical section that validated them.",
+		Explanation: "RA over the stable compiler's scheduler and the shared symbol table: executor.results and result.blockedOn are touched only under their mutex; executor/result fields read without locks are never assigned after construction; descriptorProtoIsCustom is written only inside its sync.Once. RB: result.res/err are written only in fail/complete (write; close(ready)) and every other read is dominated by a receive from the same result's ready channel. RC5: Compile returns descriptors indexed by request position only after the handler verdict. RC1/RC2/RC8 (shared with C06): the blocked-on publication and cycle-check ordering in task.asFile, whose violation makes the outcome (cycle error vs. hang) depend on the schedule and on the order of the requested files. RC10: requested files are registered in one critical section. RI/RJ: no map-order-, clock- or random-dependent value is produced in functions reachable from Compiler.Compile except through the listed order-insensitive idioms. RA4: insert-if-absent writes of the symbol table happen in the critical section that validated them.",
 		NotDecided:  "that linking a file is a pure function of its inputs beyond those sources; order of reporter callbacks (unconstrained by the property)",
-		Rules:       []func(*World){raCompiler, rbCompiler, rcCompile, raSymbols, ra4Symbols, rc10ExplicitRegistration, riCompile},
+		Rules:       []func(*World){raCompiler, rbCompiler, rcCompile, rcAsFile, raSymbols, ra4Symbols, rc10ExplicitRegistration, riCompile},
 	})
 	register(&Property{
 		ID:          "C06",
@@ -107,13 +107,13 @@ func init() {
 		ID:          "C28",
 		Explanation: "RS: the ok flag of experimental/parser.Parse is cleared by a condition which, evaluated over the whole Level domain, is true exactly for {ICE, Error}. RW: each stage entry (lexer.loop, parser.parse, ir.lower) defers Report.CatchICE(false, …) before anything but plain assignments, so panics become ICE diagnostics; the `for !X.Done()` driver loops of the lexer and parser call their progress guard first.",
 		NotDecided:  "absence of ICEs (RW turns them into diagnostics, it does not exclude them); that diagnostic spans lie inside the file",
-		Rules:       []func(*World){rsParse, rwICE},
+		Rules:       []func(*World){rsParse, rwICE, rv3PreludeEncodingGate},
 	})
 	register(&Property{
 		ID:          "C29",
 		Explanation: "RV: in lexer.loop every path from an increment of lexer.badBytes to the function's end passes a flush (flushUnrecognized/keyword/push); badBytes is written only by loop and the flush helper. RV2: every `return false` of lexPrelude on non-empty input must have pushed tokens (today's bail-outs do not: known findings).",
 		NotDecided:  "that pushed lengths sum to the cursor advance on every path (arithmetic); bracket fusion",
-		Rules:       []func(*World){rvLexer},
+		Rules:       []func(*World){rvLexer, rv3PreludeEncodingGate},
 	})
 	register(&Property{
 		ID:          "C38",
@@ -123,9 +123,9 @@ func init() {
 	})
 	register(&Property{
 		ID:          "C41",
-		Explanation: "RZ (one clause): every panic site in internal/toposort is classified; the cycle panic in Sorter.push is reached from a state that depends only on the input graph, contradicting 'on cyclic input it still terminates and yields' (known finding).",
-		NotDecided:  "ordering of the yielded nodes; all trie clauses",
-		Rules:       []func(*World){rzToposort},
+		Explanation: "RZ: every panic site in internal/toposort is classified; RZ2: the iterator returned by Sorter.Sort resets all of the Sorter's scratch state (state, stack, iterating) in a deferred function of its own; RZ3: no rune iteration over string keys in package trie (insert and lookup both walk bytes); the cycle panic in Sorter.push is reached from a state that depends only on the input graph, contradicting 'on cyclic input it still terminates and yields' (known finding).",
+		NotDecided:  "ordering of the yielded nodes; longest-prefix correctness of the trie",
+		Rules:       []func(*World){rzToposort, rz2SorterCleanup, rz3TrieByteKeys},
 	})
 	register(&Property{
 		ID:          "C20",
